@@ -18,10 +18,10 @@ S = "src/aspire/"
 
 MUTANTS = [
     # ---- C02
-    ("c02-drop-logN", ["C02"], S + "samples.py",
+    ("c02-drop-logN", ["C02", "C01"], S + "samples.py",
      "self.log_evidence = asarray(logsumexp(self.log_w), self.xp) - math.log(\n            len(self.x)\n        )",
      "self.log_evidence = asarray(logsumexp(self.log_w), self.xp)"),
-    ("c02-logw-plus-q", ["C02"], S + "samples.py",
+    ("c02-logw-plus-q", ["C02", "C01"], S + "samples.py",
      "self.log_w = self.log_likelihood + self.log_prior - self.log_q",
      "self.log_w = self.log_likelihood + self.log_prior + self.log_q"),
     ("c02-unshifted-lse", ["C02"], S + "utils.py",
@@ -99,6 +99,15 @@ MUTANTS = [
      "                ess = effective_sample_size(samples.log_weights(0.5 * (beta + samples.beta)))\n"),
     ("c18-resume-dup", ["C18"], S + "samplers/smc/base.py",
      "        if store_sample_history and not resumed:", "        if store_sample_history:"),
+    # ---- C01
+    ("c01-resample-uniform", ["C01", "C09"], S + "samples.py",
+     "        w = to_numpy(w / self.xp.sum(w))\n", "        w = to_numpy(w / self.xp.sum(w))\n        w = np.ones_like(w) / len(w)\n"),
+    ("c01-kernel-target-no-prior", ["C01", "C05"], S + "samples.py",
+     "        log_p_T = self.log_likelihood + self.log_prior\n        return (1 - beta) * self.log_q + beta * log_p_T",
+     "        log_p_T = self.log_likelihood\n        return (1 - beta) * self.log_q + beta * log_p_T"),
+    ("c01-evidence-ratio-finite-only", ["C01", "C08"], S + "samples.py",
+     "        log_w = self.unnormalized_log_weights(beta)\n        return logsumexp(log_w) - math.log(len(self.x))",
+     "        log_w = self.unnormalized_log_weights(beta)\n        log_w = log_w[self.xp.isfinite(log_w)]\n        return logsumexp(log_w) - math.log(len(log_w))"),
     # ---- C03
     ("c03-zuko-logprob-jac-sign", ["C03"], S + "flows/torch/flows.py",
      "            log_prob = self._flow().log_prob(x_prime) + log_abs_det_jacobian", "            log_prob = self._flow().log_prob(x_prime) - log_abs_det_jacobian"),
@@ -302,13 +311,13 @@ MUTANTS = [
     ("c16-from-dict-recomputes-evidence", ["C16"], S + "samples.py",
      "        if getattr(samples, \"log_w\", None) is not None:\n            for key in", "        if False:\n            for key in"),
     # ---- C05
-    ("c05-smc-drop-jacobian", ["C05"], S + "samplers/smc/base.py",
+    ("c05-smc-drop-jacobian", ["C05", "C01"], S + "samplers/smc/base.py",
      "        ).flatten() + samples.array_to_namespace(log_abs_det_jacobian)\n\n        log_prob = update_at_indices(",
      "        ).flatten()\n\n        log_prob = update_at_indices("),
-    ("c05-smc-jacobian-sign", ["C05"], S + "samplers/smc/base.py",
+    ("c05-smc-jacobian-sign", ["C05", "C01"], S + "samplers/smc/base.py",
      "        ).flatten() + samples.array_to_namespace(log_abs_det_jacobian)\n\n        log_prob = update_at_indices(",
      "        ).flatten() - samples.array_to_namespace(log_abs_det_jacobian)\n\n        log_prob = update_at_indices("),
-    ("c05-beta-logq", ["C05"], S + "samples.py",
+    ("c05-beta-logq", ["C05", "C01"], S + "samples.py",
      "        return (1 - beta) * self.log_q + beta * log_p_T", "        return beta * self.log_q + beta * log_p_T"),
     ("c05-nan-propagates", ["C05"], S + "samplers/smc/base.py",
      "        log_prob = update_at_indices(\n            log_prob, self.xp.isnan(log_prob), -self.xp.inf\n        )\n        return log_prob",
